@@ -24,6 +24,8 @@ type cenv struct {
 	bound      map[string]*Val
 	depth      int
 	goal       bool // the clause is being proved (not assumed): add witness candidates to exists
+	noUnfold   bool // inside the body of a recursive spec function: inner applications stay folded
+	unfoldLvl  int  // nesting depth of definitional unfoldings (max 2)
 }
 
 func (E *Engine) cenvFor(st *State, c *fnCtx, ctx *FileCtx) *cenv {
@@ -223,7 +225,7 @@ func (ev *cenv) eqVals(x, y *Val) string {
 		sh := E.shape(x.T)
 		if sh.Kind == "slice" {
 			// contract-level slice equality: same header
-			return and(eq(x.F[0].S, y.F[0].S), eq(x.F[1].S, y.F[1].S), eq(x.F[2].S, y.F[2].S))
+			return and(eq(x.F[0].S, y.F[0].S), eq(x.F[1].S, y.F[1].S), eq(x.F[2].S, y.F[2].S), eq(x.F[3].S, y.F[3].S))
 		}
 		var cs []string
 		for i := range x.F {
@@ -791,6 +793,11 @@ func (ev *cenv) call(e *CExpr) *Val {
 			if isMissing(a) || isMissing(b) {
 				return missingVal()
 			}
+			if isNilVal(a) && !isNilVal(b) {
+				a = E.zeroVal(b.T)
+			} else if isNilVal(b) && !isNilVal(a) {
+				b = E.zeroVal(a.T)
+			}
 			return E.iteVal(c, a, b)
 		case "istype":
 			x := ev.eval(args[0])
@@ -930,9 +937,12 @@ func (ev *cenv) applySpecFunc(sf *SpecFunc, args []*Val) *Val {
 	if len(args) != len(sf.Params) {
 		ev.fail("spec func %s: wrong number of arguments", sf.Name)
 	}
+	if sf.Body != nil && E.isRecursiveSpec(sf) {
+		return ev.applyRecursive(sf, args)
+	}
 	if sf.Body != nil {
-		if ev.depth > 8 {
-			ev.fail("spec func %s: recursion too deep (recursive definitions must be uninterpreted + axioms)", sf.Name)
+		if ev.depth > 12 {
+			ev.fail("spec func %s: recursion too deep", sf.Name)
 		}
 		sub := *ev
 		sub.ctx = sf.Ctx
@@ -949,6 +959,12 @@ func (ev *cenv) applySpecFunc(sf *SpecFunc, args []*Val) *Val {
 		sub.loopMode = false
 		return sub.eval(sf.Body)
 	}
+	return ev.uninterpApp(sf, args)
+}
+
+// uninterpApp: the application as uninterpreted function symbol(s) over the argument leaves.
+func (ev *cenv) uninterpApp(sf *SpecFunc, args []*Val) *Val {
+	E := ev.E
 	var sorts, terms []string
 	for i, a := range args {
 		T := E.resolveCType(sf.Ctx, sf.Params[i].Type)
@@ -1168,4 +1184,84 @@ func (ev *cenv) witnessCandidates() []string {
 		}
 	}
 	return out
+}
+
+// Recursive spec functions (their body mentions themselves, directly or through other
+// defined spec functions) are rendered as uninterpreted applications plus ONE level of
+// definitional unfolding in the current heap, added as a fact to the state:
+//     f(args) == body[f := uninterpreted]
+// This is sound as long as the heap locations the body reads do not change between the
+// states in which the same application is used; contracts using such functions declare
+// those components `preserves` / immutable.
+func (E *Engine) isRecursiveSpec(sf *SpecFunc) bool {
+	if r, ok := E.recSpec[sf.Name]; ok {
+		return r
+	}
+	// cut points of the definitional call graph: functions that call themselves directly.
+	// Other defined functions are inlined (a cycle through no cut point hits the depth limit).
+	var direct func(e *CExpr) bool
+	direct = func(e *CExpr) bool {
+		if e == nil {
+			return false
+		}
+		if e.Op == "call" && e.Args[0].Op == "ident" && e.Args[0].Name == sf.Name {
+			return true
+		}
+		for _, a := range e.Args {
+			if direct(a) {
+				return true
+			}
+		}
+		return false
+	}
+	r := direct(sf.Body)
+	E.recSpec[sf.Name] = r
+	return r
+}
+
+func (ev *cenv) applyRecursive(sf *SpecFunc, args []*Val) *Val {
+	E := ev.E
+	app := ev.uninterpApp(sf, args)
+	if ev.unfoldLvl >= 2 || ev.st == nil {
+		return app
+	}
+	// no unfolding under binders
+	for _, a := range args {
+		for _, l := range leaves(a) {
+			if strings.Contains(l.S, "|q:") || strings.Contains(l.S, "|j!") {
+				return app
+			}
+		}
+	}
+	key := "unf:" + sf.Name
+	for _, l := range leaves(app) {
+		key += l.S
+	}
+	if ev.st.ghost[key] != "" {
+		return app
+	}
+	ev.st.ghost[key] = "1"
+	sub := *ev
+	sub.ctx = sf.Ctx
+	sub.bound = map[string]*Val{}
+	for i, p := range sf.Params {
+		T := E.resolveCType(sf.Ctx, p.Type)
+		a := args[i]
+		if isNilVal(a) {
+			a = E.zeroVal(T)
+		}
+		sub.bound[p.Name] = retypeIfMath(a, T)
+	}
+	sub.unfoldLvl = ev.unfoldLvl + 1
+	sub.loopMode = false
+	sub.goal = false
+	body := sub.eval(sf.Body)
+	al, bl := leaves(app), leaves(body)
+	if len(al) != len(bl) {
+		ev.fail("recursive spec func %s: body shape differs from declared type", sf.Name)
+	}
+	for i := range al {
+		ev.st.assume(eq(al[i].S, bl[i].S))
+	}
+	return app
 }
